@@ -1601,6 +1601,15 @@ dialSuccess:
 	shard.mu.Unlock()
 	p.registerEndpoint(ue)
 
+	// A health invalidation that ran between the generation snapshot above and
+	// the registration could not find this endpoint in the dialer index, so it
+	// was not retired. It has carried no traffic yet and must not outlive the
+	// invalidation (a later write would otherwise make it look established).
+	if !p.endpointGenerationCurrent(ue) {
+		ue.retire()
+		return nil, fmt.Errorf("udp endpoint dialer was invalidated during endpoint creation")
+	}
+
 	// Receive UDP messages.
 	go ue.start()
 	return ue, nil
